@@ -106,6 +106,7 @@ type Explorer struct {
 	onces     map[*value]bool
 	syncMaps  map[*value]*syncMapModel
 	ufCache   map[string][2]string
+	ufUsed    bool // this path went through an uninterpreted parser: its model need not be a real parse
 	atoms     map[*value]*value
 	interp    *interpreter
 	steps     int
@@ -140,6 +141,7 @@ func (e *Explorer) resetPath() {
 	e.violated = false
 	e.freezeOn = false
 	e.ufCache = map[string][2]string{}
+	e.ufUsed = false
 	e.atoms = nil
 	e.flags = 0
 	e.frozen, e.frozenMaps, e.pooledObjs, e.monitored = nil, nil, map[*value]bool{}, map[string]bool{}
